@@ -16,8 +16,9 @@ META = {
             "result, post state as exported) is validated by TLC against FormsModel!FillAllowed: refilling an export changes nothing, a valid "
             "value filled into an unlocked field is exported exactly, lock flags follow the fill JSON, absent fields are untouched.",
     "note": "Trusted: FormsModel.tla (Valid, FillAllowed) as the meaning of fill/export; pdfcpu's form creator for the initial documents "
-            "(its result is checked against the requested state through export); text repertoire limited to what the core font Helvetica "
-            "encodes (user fonts are unavailable with the config dir disabled); a read-only field may keep its value or take the filled one.",
+            "(its result is checked against the requested state through export); text values cover ASCII, Latin-1, PDF string escapes, "
+            "blanks, line breaks, BMP non-Latin scripts (CJK, Cyrillic) and supplementary-plane characters (the harness installs Roboto-Regular "
+            "from /repo/pkg/testdata/fonts into a temporary config dir so that pdfcpu can render them); a read-only field may keep its value or take the filled one.",
     "technique": "TLA+ model enumerated by TLC for cases, real executions recorded and validated by TLC against the model's step relation",
     "design_ref": "DESIGN.md §5 C37",
 }
@@ -64,7 +65,10 @@ def _explain(r, defs):
             return "fill|value|%s" % t, "unlocked field %s (%s) with value %s filled with valid value %s is exported as %s" % (f["name"], t, a["val"], o["val"], b["val"])
         if a["locked"] and b["val"] not in (a["val"], o["val"]):
             return "fill|locked-value|%s" % t, "read-only field %s (%s) with value %s filled with %s is exported as %s" % (f["name"], t, a["val"], o["val"], b["val"])
-    return "fill|?", "fill record rejected"
+    # every field is as allowed: the op itself is outside the model (a refill built from an export that holds a value the model does not
+    # know, i.e. a value corrupted by an earlier step or by the creator)
+    return "fill|op-outside-model|%s" % r["opkind"], "the %s step was built from an exported state holding a value outside the model's repertoire: %s" % (
+        r["opkind"], [o["val"] for o in r["op"] if o["present"]][:10])
 
 
 def run(ctx):
@@ -135,12 +139,15 @@ def run(ctx):
         ev.cov(evaluations=len(rows), distinct_nontrivial=len(changed), traces_validated_against_impl=validated,
                rule="every behaviour of Forms.tla within the cfg (focus field x initial value x initial lock x fill steps; the other nine fields rotate "
                     "through their value repertoires and lock flags) is one case = 1 create record + one record per fill step; plus one refill record "
-                    "per form sample usable with core fonts; each record is one state of FormsTrace.tla judged by FillAllowed; non-trivial = distinct "
+                    "per form sample usable with the installed fonts; each record is one state of FormsTrace.tla judged by FillAllowed; non-trivial = distinct "
                     "(field, old value, new value, lock flag) combinations in which an unlocked field was given a different valid value",
                exhaustive=True, cases=n, records=len(rows), records_rejected_by_tlc=len(rejected), sample_forms=summ["samples"], real_results=summ["results"],
                read_only_field_filled_with_other_value=locked_beh)
         ev.assume("valid values are those of FormsModel!Valid: options must exist, dates are in the field's format, text within MaxLen and within the "
-                  "repertoire of the core font Helvetica (Latin-1); other scripts need user fonts that are not installed in the sandbox",
+                  "value repertoire of the model (tokens @latin @esc @spaces @lines @cjk @cyr @astral are expanded by the harness; the Unicode strings "
+                  "live in harness/cmd/bmformwm/form.go because TLC strings stay ASCII)",
+                  "the harness uses a temporary pdfcpu config dir with the user font Roboto-Regular installed (fields are created with Helvetica; pdfcpu "
+                  "switches to that font for values Helvetica cannot encode)",
                   "a field that is read-only before the fill may keep its value or take the filled one (both readings of 'locked fields keep their "
                   "values' are accepted; the observed behaviour per type is recorded in coverage.read_only_field_filled_with_other_value)",
                   "initial documents are produced by pdfcpu's own form creator and checked through export against the requested state",
